@@ -182,6 +182,25 @@ def roundtrip(j, root, check_types=True):
     return True, "ok", out
 
 
+def roundtrip_fresh(j, root_name):
+    """the same oracle in a fresh interpreter, where the converter is the FIRST one created in the process
+    (behaviour that depends on converter-creation history only shows there)"""
+    import subprocess
+    import sys
+
+    code = (
+        "import json, sys\nfrom vlib import replay\n"
+        "j = json.loads(sys.stdin.read())\nok, detail, out = replay.roundtrip(j['json'], replay.root_type(j['root']))\n"
+        "print(json.dumps({'ok': ok, 'detail': detail}))\n"
+    )
+    try:
+        p = subprocess.run([sys.executable, "-c", code], input=json.dumps({"json": j, "root": root_name}), capture_output=True, text=True, timeout=120, env=dict(os.environ))
+        r = json.loads(p.stdout.strip().splitlines()[-1])
+        return r["ok"], r["detail"]
+    except Exception as e:
+        return True, "fresh-process replay failed to run: %s" % e
+
+
 def _enum_default(o):
     if isinstance(o, enum.Enum):
         return o.value
